@@ -30,6 +30,7 @@ CLAIMS = {
  "C03": ("Unbounded deductive proof that the tree returned by into_struct/extend_struct (through build_struct, parse_tag, tag_optional_children, count_children) equals g_build, the inference algorithm written as a spec function of (ghost tree, abstract event sequence) (refinement T1), for all event sequences and nesting depths.", base_note, "Verus refinement proof (fold invariant over the ghost event stream) on the real parser functions"),
  "C05": ("Parser half: the returned tree including internal child order is proved equal to a spec function of the inputs; vstd leaves HashMap iteration order unconstrained, so the proof can only exist if that order does not influence the result.", base_note + " Renderer determinism is covered by the bounded stand-in only (repeated parse+render in one process and across threads).", "Verus functional postconditions over an unconstrained HashMap-order model"),
  "C07": ("Unbounded deductive proof of panic freedom and termination of every function under contract: Verus's built-in obligations (arithmetic overflow, Vec::remove bounds, unwrap preconditions) and decreases clauses for every loop and for the build_struct/parse_tag recursion, for all event streams.", base_note + " quick_xml internals, allocation failure, stack exhaustion and the whole renderer are outside the verifier; the renderer and byte-level inputs are exercised by the bounded stand-in only.", "Verus implicit obligations + decreases on the real parser/tree functions"),
+ "C11": ("Parser half, unbounded: (1) T1 - the real parser computes g_build of the abstract event stream, in which attribute values do not exist; (2) theorem_norm, proved in Verus over the ghost algorithm - g_build of a stream equals g_build of its normal form, where comments/PIs/declaration/DOCTYPE are dropped, CDATA is text, valid text content is erased and <x/> is <x></x> (layer E). Hence the returned tree modulo text content depends only on element names, attribute names, nesting, repetition and the presence of character data.", base_note + " Buffer-size independence is a property of quick_xml (outside the event model); that the renderer reads text only through is_some() and never reads count is assumed (A8); both are exercised by the bounded stand-in (all listed rewrites, BufReader capacities 1..64).", "Verus refinement proof on the real parser + spec-level normal-form theorem over the ghost algorithm"),
  "C08": ("Unbounded deductive proof that the Ok/Err verdict of into_struct/extend_struct (and of build_struct/parse_tag) equals scan(), an independent stream-order oracle over the same abstract events, plus 'no element' for the initial parse.", base_note + " The error payload (reader error and byte position) is compared by the bounded stand-in only.", "Verus postcondition against a spec oracle"),
 }
 def main():
